@@ -127,7 +127,7 @@ func genC07(t *rapid.T) *LCase {
 	if c.Consumer == "stop" {
 		c.StopAfter = rapid.IntRange(0, 20).Draw(t, "stopafter")
 	}
-	c.Overflow = rapid.SampledFrom([]int{0, 0, 20, 100}).Draw(t, "churn") // churn ops per churn goroutine
+	c.Churn = rapid.SampledFrom([]int{0, 0, 20, 100}).Draw(t, "churn") // churn ops per churn goroutine
 	ng := rapid.IntRange(2, 4).Draw(t, "ng")
 	// concentrate on one or two paths so that calls collide
 	focus := rapid.SliceOfN(rapid.SampledFrom(c07Paths), 1, 3).Draw(t, "focus")
@@ -149,6 +149,9 @@ func genC07(t *rapid.T) *LCase {
 			}
 		}
 	}
+	// rarely: the programme runs while a queue-overflow error waits to be
+	// taken from Errors (nobody, or only an Events reader, is there)
+	genOverflow(t, c)
 	return c
 }
 
@@ -178,8 +181,17 @@ func runC07(c *LCase) (viol string, overlaps int, feats []string) {
 			init[c07Inode[string(a)]] = filepath.Clean(string(a))
 		}
 	}
+	if c.Overflow > 0 {
+		if p := overflowBurst(w.W, c.Overflow); p != "" {
+			return "deadlock: " + p, 0, nil
+		}
+		feats = append(feats, "error-pending")
+	}
 	cons := startConsumer(w.W, c.Consumer, c.StopAfter)
 	defer cons.halt()
+	if c.Overflow > 0 && (c.Consumer == "events" || c.Consumer == "stop") {
+		waitParkedInSendError()
+	}
 
 	var clock int64
 	var mu sync.Mutex
@@ -196,13 +208,13 @@ func runC07(c *LCase) (viol string, overlaps int, feats []string) {
 	var wg sync.WaitGroup
 	var stopChurn int32
 	// churn: event traffic on entries inside d0 and d1 so that the reader contends for the lock
-	for k := 0; k < 2 && c.Overflow > 0; k++ {
+	for k := 0; k < 2 && c.Churn > 0; k++ {
 		k := k
 		wg.Add(1)
 		go func() {
 			defer wg.Done()
 			<-start
-			for i := 0; i < c.Overflow && atomic.LoadInt32(&stopChurn) == 0; i++ {
+			for i := 0; i < c.Churn && atomic.LoadInt32(&stopChurn) == 0; i++ {
 				p := fmt.Sprintf("d%d/churn-%d", k, i%3)
 				os.WriteFile(p, []byte("x"), 0o644)
 				if i%2 == 1 {
@@ -240,7 +252,7 @@ func runC07(c *LCase) (viol string, overlaps int, feats []string) {
 						} else {
 							var ps []string
 							for _, p := range l {
-								if p != w.SentDir {
+								if p != w.SentDir && p != "ovf" { // "ovf": the overflow burst's own directory
 									ps = append(ps, p)
 								}
 							}
